@@ -104,3 +104,42 @@ def settings(m, meta):
     finally:
         BlockImage.forced_support = False
     return {"reproduced": bool(bad), "input": "resolution laws on fresh subclasses of the real style classes", "observed": [repr(b)[:300] for b in bad[:4]]}
+
+
+def method_override(m, meta):
+    """the render method a render actually uses: str(image) with the per-call override spelled in any letter case equals the render
+    with that method set as the image's own; without override the effective method is used (kitty and iterm2)"""
+    import tests  # noqa: F401
+    from PIL import Image
+    from term_image.image import ITerm2Image, KittyImage
+    problems = []
+    img = Image.new("RGB", (40, 40), (10, 200, 30))
+    for cls, methods in ((KittyImage, ("lines", "whole")), (ITerm2Image, ("lines", "whole"))):
+        saved = cls._supported
+        cls._supported = True
+        try:
+            for own in methods:
+                for over in methods:
+                    ref_img = cls(img)
+                    ref_img.set_size(height=3)
+                    ref_img.set_render_method(over)
+                    want = ref_img._renderer(ref_img._render_image, None)
+                    for spelling in (over, over.upper(), over.capitalize()):
+                        image = cls(img)
+                        image.set_size(height=3)
+                        image.set_render_method(own)
+                        got = image._renderer(image._render_image, None, method=spelling)
+                        if got != want:
+                            problems.append({"style": cls.__name__, "image's own method": own, "per-call override": spelling,
+                                             "observed": "output differs from a render with method " + over})
+                    image = cls(img)
+                    image.set_size(height=3)
+                    image.set_render_method(own)
+                    ref2 = cls(img)
+                    ref2.set_size(height=3)
+                    ref2.set_render_method(own)
+                    if image._renderer(image._render_image, None) != ref2._renderer(ref2._render_image, None, method=own):
+                        problems.append({"style": cls.__name__, "own method": own, "observed": "render without override differs"})
+        finally:
+            cls._supported = saved
+    return {"reproduced": bool(problems), "input": "renders with / without a per-call method override in three spellings", "observed": problems[:3]}
